@@ -66,7 +66,14 @@ class SimRaw(io.RawIOBase):
     def readinto(self, b):
         if self._buf is None:
             self._w.point("read", self._path, self._pid)
-            self._buf = self._producer()
+            try:
+                self._buf = self._producer()
+            except OSError as e:
+                # opt-in fidelity (world.bare_read_errors): an error of read(2) is raised by Python WITHOUT a file name
+                # (only open()/stat()/readlink() errors carry one); the default keeps the name, as before
+                if getattr(self._w, "bare_read_errors", False) and e.filename is not None:
+                    raise OSError(e.errno, e.strerror) from None
+                raise
         n = min(len(b), len(self._buf) - self._off)
         b[:n] = self._buf[self._off:self._off + n]
         self._off += n
